@@ -207,6 +207,10 @@ def details(mods):
             if isinstance(target, (types.FunctionType, type)):
                 defined_here = getattr(target, "__module__", None) == modname and \
                     getattr(target, "__qualname__", "") == qualprefix + k
+                if isinstance(raw, (property, classmethod, staticmethod)) and getattr(target, "__module__", None) == modname:
+                    # `x = property(getter)` / `make = staticmethod(_make)`: a descriptor object created in this namespace
+                    # is a definition of this namespace whatever the name of the function it wraps
+                    defined_here = True
             else:
                 defined_here = False
             if not defined_here:
